@@ -45,6 +45,9 @@ type dCase struct {
 	H    int    `json:"h"`
 	Mi   int    `json:"mi"`
 	S    int    `json:"s"`
+	// DevTZ: the controller is configured with this time zone (the civil time lies in a gap of THAT zone, not of the process
+	// zone): what a controller sends is read in the process zone whatever zone it is configured with
+	DevTZ string `json:"device_tz,omitempty"`
 }
 
 func bcd(v int) byte { return byte((v/10)<<4 | v%10) }
@@ -222,7 +225,11 @@ func checkDateTimeCore(c dCase) (site, msg string) {
 		return "types.DateTime.String", fmt.Sprintf("date-time %s prints as %q", text, s)
 	}
 	// through the API: GetTime, GetEvent and the status (event timestamp + system date/time)
-	u, drv := hook.Mem(apiCfg())
+	cfg := apiCfg()
+	if c.DevTZ != "" {
+		cfg = hook.ClientCfg{Debug: apiCounter%2 == 0, Devices: []hook.DeviceCfg{{Name: "A", Serial: 405419896, HasAddr: apiCounter%3 != 0, IP: [4]byte{10, 0, 0, 1}, Port: 60000, Protocol: "udp", TZ: c.DevTZ, ViaNew: apiCounter%4 < 2}}}
+	}
+	u, drv := hook.Mem(cfg)
 	b := make([]byte, 64)
 	spec.Header(b, 0x17, 0x32, 405419896)
 	copy(b[8:], wire)
@@ -370,6 +377,30 @@ func myZones() []string {
 
 // systematic part: per zone all midnight-gap days with neighbours, boundaries, transitions
 func sweep(yield func(dCase) bool) {
+	// civil times that do not exist in the zone the CONTROLLER is configured with (its spring-forward hour) while the process
+	// runs in another zone, where they do exist
+	if ev.Shard() == 1%ev.Shards() {
+		for _, dz := range []string{"America/New_York", "Europe/Berlin", "Australia/Sydney", "America/Santiago", "Australia/Lord_Howe", "Asia/Tehran", "Africa/Cairo"} {
+			for _, tr := range zones.Transitions(dz, 2015, 2026) {
+				loc := zones.Loc(dz)
+				_, before := tr.Add(-time.Second).In(loc).Zone()
+				_, after := tr.In(loc).Zone()
+				if after <= before {
+					continue // clocks went back: no gap
+				}
+				// wall clock just before the jump, plus 1 s / half the jump: inside the gap
+				w := tr.Add(-time.Second).In(loc)
+				for _, add := range []time.Duration{time.Second, time.Duration(after-before) * time.Second / 2, time.Duration(after-before)*time.Second - time.Second} {
+					g := time.Date(w.Year(), w.Month(), w.Day(), w.Hour(), w.Minute(), w.Second(), 0, time.UTC).Add(add)
+					for _, pz := range []string{"UTC", "Asia/Tokyo", "America/Phoenix"} {
+						if !yield(dCase{Zone: pz, Kind: "datetime", Y: g.Year(), M: int(g.Month()), D: g.Day(), H: g.Hour(), Mi: g.Minute(), S: g.Second(), DevTZ: dz}) {
+							return
+						}
+					}
+				}
+			}
+		}
+	}
 	// nothing may depend on the date the library is asked on: the days of the current week, hour by hour, in the synthetic
 	// zone whose clock springs forward and falls back on every one of them
 	if ev.Shard() == 0 {
